@@ -2,6 +2,7 @@ package bloomsearch
 
 import (
 	"math"
+	"reflect"
 )
 
 // MinMaxIndex records the observed numeric range of a field. Values outside
@@ -30,12 +31,30 @@ func ConvertToMinMaxInt64(value any) (minVal int64, maxVal int64, ok bool) {
 	case float64:
 		return floatToMinMaxInt64(v)
 	default:
+		if f, isFloat := namedFloat64(value); isFloat {
+			return floatToMinMaxInt64(f)
+		}
 		intVal, isInt := toInt64(value)
 		if !isInt {
 			return 0, 0, false
 		}
 		return intVal, intVal, true
 	}
+}
+
+// namedFloat64 returns the value of a defined floating-point type (a type
+// whose underlying kind is float32 or float64); the type switches above only
+// match the predeclared types.
+func namedFloat64(value any) (float64, bool) {
+	if value == nil {
+		return 0, false
+	}
+	rv := reflect.ValueOf(value)
+	switch rv.Kind() {
+	case reflect.Float32, reflect.Float64:
+		return rv.Float(), true
+	}
+	return 0, false
 }
 
 func floatToMinMaxInt64(v float64) (minVal int64, maxVal int64, ok bool) {
@@ -56,6 +75,9 @@ func ConvertToInt64(value any) (int64, bool) {
 	case float64:
 		return floatToInt64(v)
 	default:
+		if f, isFloat := namedFloat64(value); isFloat {
+			return floatToInt64(f)
+		}
 		return toInt64(value)
 	}
 }
@@ -105,6 +127,18 @@ func toInt64(value any) (int64, bool) {
 	case uint64:
 		return clampUint64ToInt64(v), true
 	default:
+		// Defined integer types (time.Duration, custom ID types) and uintptr
+		// carry integer values too: convert them by kind.
+		if value == nil {
+			return 0, false
+		}
+		rv := reflect.ValueOf(value)
+		switch rv.Kind() {
+		case reflect.Int, reflect.Int8, reflect.Int16, reflect.Int32, reflect.Int64:
+			return rv.Int(), true
+		case reflect.Uint, reflect.Uint8, reflect.Uint16, reflect.Uint32, reflect.Uint64, reflect.Uintptr:
+			return clampUint64ToInt64(rv.Uint()), true
+		}
 		return 0, false
 	}
 }
